@@ -114,6 +114,46 @@ def all_handlers_linked(ctx, fails):
     return res
 
 
+def unprivileged_runs(ctx, fails):
+    """An invoker who may not give files away: the replacement cannot get the original's owner (a warning, by design), but it must
+    get its mode and mtime, and the bytes a privileged run writes."""
+    import shutil
+    res = []
+    if os.getuid() != 0:
+        ctx.notes.append("unprivileged runs skipped: the check itself does not run as root")
+        return res
+    NOBODY = 65534
+    for n, (data, hs) in samples.per_handler().items():
+        if hs[0] not in ("gzip", "ar", "javadoc"):
+            continue
+        for mode in (0o755, 0o604, 0o444):
+            t = fh.Tree()
+            try:
+                os.chmod(t.root, 0o755)
+                t.mkdir("bin")
+                shutil.copy(fh.cli_bin(False), t.path("bin/adet"))
+                os.chmod(t.path("bin/adet"), 0o755)
+                t.mkdir("d")
+                t.add_file("d/" + n, data, mode=mode, mtime_ns=1_650_000_000_123_456_789)      # owned by root
+                os.chown(t.path("d"), NOBODY, NOBODY)
+                t.add_file("ref/" + n, data, mode=mode, mtime_ns=1_650_000_000_123_456_789)
+                fh.run_cli(["--handler", hs[0], t.path("ref")], epoch=samples.EPOCH, timeout=60)
+                want = open(t.path("ref/" + n), "rb").read()
+                before = os.lstat(t.path("d/" + n))
+                rc, out = fh.run_cli(["--handler", hs[0], t.path("d")], epoch=samples.EPOCH, timeout=60, as_uid=NOBODY, binary=t.path("bin/adet"))
+                after = os.lstat(t.path("d/" + n))
+                got = open(t.path("d/" + n), "rb").read()
+                label = "%s handler as uid %d on root's file of mode %o" % (hs[0], NOBODY, mode)
+                res.append({"case": label, "exit": rc})
+                if got != want or want == data:
+                    fails.append((None, "unprivileged-content", "%s: the file does not hold the bytes a privileged run writes (exit %d: %s)" % (label, rc, out[-200:])))
+                elif (after.st_mode & 0o7777) != mode or after.st_mtime_ns != before.st_mtime_ns:
+                    fails.append((None, "unprivileged-metadata", "%s: mode %o mtime %d became mode %o mtime %d" % (label, mode, before.st_mtime_ns, after.st_mode & 0o7777, after.st_mtime_ns)))
+            finally:
+                t.remove()
+    return res
+
+
 def run(ctx):
     rng = random.Random(ctx.seed)
     coq_property(ctx)
@@ -156,6 +196,8 @@ def run(ctx):
         ctx.oblige("correspondence[fs]: class, operation trace and final state of %d real runs = model (Helper.run_handler)" % len(runs),
                    not mism, "; ".join("%s: %s" % (sc.label(), why) for sc, why in mism[:4]))
         lres = all_handlers_linked(ctx, fails)
+        ures = unprivileged_runs(ctx, fails)
+        ctx.coverage["unprivileged_runs"] = len(ures)
         seen = set()
         for sc, kind, msg in fails:
             if kind in seen:
